@@ -330,6 +330,7 @@ type nodeState struct {
 	depIn   int // first attempts of "dep"-gated items started in the current visit
 	nilSeen int // nil-argument exec calls of the current visit (Any-style exec, error-Result items)
 	open    bool // a visit of a node without a prep function is in progress (its first phase opens it)
+	dupSeen map[int]int // exec calls seen per original item of a group of equal items
 }
 
 // begin opens a new visit; called inside the scheduler by the first phase the node has.
@@ -342,6 +343,7 @@ func (st *nodeState) begin() int {
 	st.depIn = 0
 	st.nilSeen = 0
 	st.itemAtt = map[int]int{}
+	st.dupSeen = map[int]int{}
 	st.open = true
 	return v
 }
@@ -506,6 +508,11 @@ func (h *harness) batchItems(n *NodeSpec, v int, vs *Visit) (any, string) {
 			descs = append(descs, "ER("+tok+"E)")
 			continue
 		}
+		if d := vs.Items[i].DupOf; d > 0 && d-1 < i {
+			vals[i] = vals[d-1] // the same value at a second position
+			descs = append(descs, descs[d-1])
+			continue
+		}
 		if vs.Items[i].Pay == "nilitem" && n.PrepShape == "anys" {
 			vals[i] = nil // an untyped nil in the item list is an item like any other
 			descs = append(descs, "nil")
@@ -607,6 +614,25 @@ func (h *harness) exec(ctx context.Context, n *NodeSpec, arg any, anyStyle bool)
 				}
 			}
 			st.nilSeen++
+		}
+		if item >= 0 && item < len(n.visit(v).Items) {
+			// equal values at several positions: the k-th call with that value is
+			// the k-th item of the group (sequential, one attempt each)
+			group := []int{item}
+			for ii, it := range n.visit(v).Items {
+				if it.DupOf == item+1 {
+					group = append(group, ii)
+				}
+			}
+			if len(group) > 1 {
+				k := st.dupSeen[item]
+				st.dupSeen[item]++
+				if k < len(group) {
+					item = group[k]
+				} else {
+					item = 9000
+				}
+			}
 		}
 		if item >= 0 {
 			st.itemAtt[item]++
